@@ -36,6 +36,11 @@ func obsNorm(p any) any {
 	switch v[0] {
 	case "fn":
 		return []any{"fn"}
+	case "other":
+		if len(v) > 1 && v[1] == "*zygo.SexpLazyArg" {
+			return []any{"lazy"}
+		}
+		return p
 	case "list", "arr":
 		es := v[1].([]any)
 		out := make([]any, len(es))
